@@ -424,6 +424,11 @@ def fam_leak_core(tier="quick"):
     h1 = ["sd 0 1", "sd 0 1 ; sd 0 2"]
     L += exhaustive("lkH", ["H"], [h0, h1], 2)
     L += exhaustive("lkHd", ["H"], [h0, h1], 2, main_post=["drx 0"])
+    # sends after the receiver is gone: the message comes back to the sender, nothing is held, nothing leaks
+    L.append(prog_line("lkHs0", ["H"], [["drx 0", "sd 0 5"]]))
+    L.append(prog_line("lkHs1", ["H"], [["sp 1", "jn 1", "drx 0", "sd 0 6", "sd 0 7"], ["sd 0 5"]]))
+    L.append(prog_line("lkHs2", ["H", "H"], [["sp 1", "jn 1", "drx 0", "sd 0 6", "rv 1"], ["sd 0 5", "sd 1 8"]]))
+    L.append(prog_line("lkHs3", ["H", "A0"], [["sp 1", "drx 0", "st 1 1 sc", "jn 1"], ["aw 1 1 sc", "sd 0 5", "sd 0 6"]]))
     return L
 
 
@@ -791,6 +796,16 @@ def fam_litmus_core(tier="quick"):
                 fl[t] = f
             L.append(litmus_line(f"lt{name}F{n}", shape, rl, fl))
             n += 1
+    return L
+
+
+def fam_litmus_heavy(tier="quick"):
+    """Litmus programs with tens of thousands of executions: run on the implementation only (oracle RC11),
+    without the model's whole-run correspondence, which would take minutes."""
+    L = [litmus_line("lhRMWgap0", [[("W", 0, 10)], [("W", 0, 20), ("U", 0, 1)], [("R", 0), ("R", 0), ("R", 0)]], ["rlx"] * 6, [None] * 3)]
+    if tier != "quick":
+        L.append(litmus_line("lhRMWgap1", [[("W", 0, 10), ("R", 0)], [("W", 0, 20), ("U", 0, 1)], [("R", 0), ("R", 0)]], ["rlx"] * 6, [None] * 3))
+        L.append(litmus_line("lhCoWR3", [[("W", 0, 10)], [("W", 0, 20), ("W", 0, 30), ("R", 0)], [("R", 0), ("R", 0)]], ["rlx"] * 6, [None] * 3))
     return L
 
 
